@@ -37,7 +37,7 @@ Ns    == { [k |-> "N", proto |-> p, ntype |-> nt, spi |-> D(sn, 19), data |-> D(
              nt \in (IF Thorough THEN {0, 1, 16384, 16388, 55501, 65535} ELSE {1, 16388, 65535}),
              sn \in {0, 4, 8, 255}, n \in {0, 1, 40} }
 Ds    == { [k |-> "D", proto |-> 1, spisz |-> 0, num |-> 0, spis |-> << >>] }
-         \cup { [k |-> "D", proto |-> p, spisz |-> 4, num |-> n, spis |-> [i \in 1..n |-> D(4, i + 29)]] : p \in {2, 3}, n \in {0, 1, 2, 3, 50} }
+         \cup { [k |-> "D", proto |-> p, spisz |-> 4, num |-> n, spis |-> [i \in 1..n |-> D(4, i + 29)]] : p \in {2, 3}, n \in {0, 1, 2, 3, 50, 300} }
 
 Sel4(p, sp, ep, s) == [tst |-> 7, proto |-> p, sp |-> sp, ep |-> ep, sa |-> D(4, s), ea |-> D(4, s + 100)]
 Sel6(p, sp, ep, s) == [tst |-> 8, proto |-> p, sp |-> sp, ep |-> ep, sa |-> D(16, s), ea |-> D(16, s + 100)]
@@ -59,10 +59,11 @@ TB == << TrTV(1, 12, 14, 256), TrTV(1, 12, 14, 192), TrNone(2, 5), TrNone(2, 2),
 TC == << TrTLV(1, 65535, 300, D(3, 51)), TrTV(1, 1, 142, 1), TrTLV(2, 7, 16385, D(1, 52)), TrTV(3, 0, 32767, 65535), TrTLV(5, 1, 14, D(300, 53)) >>
 TD == << TrNone(5, 0) >>
 TE == << TrTV(1, 12, 14, 0), TrTV(2, 65535, 0, 65535), TrTV(3, 256, 127, 128), TrTV(4, 255, 128, 255), TrTV(5, 2, 255, 256), TrTLV(4, 0, 0, << 0 >>) >>
-Prop(num, proto, sn, trs) == [num |-> num, proto |-> proto, spi |-> D(sn, 55 + sn), tr |-> trs]
+Prop(num, proto, sn, trs) == [num |-> num, proto |-> proto, spi |-> D(sn, 55 + sn + 3 * num), tr |-> trs]
 PropLists == { << >>, << Prop(1, 1, 0, TA) >>, << Prop(1, 3, 4, TB) >>, << Prop(0, 0, 255, TC) >>, << Prop(255, 255, 8, TD) >>,
                << Prop(2, 2, 1, TE) >>, << Prop(1, 1, 8, TA), Prop(2, 1, 8, TB), Prop(3, 3, 4, TD) >>,
-               << Prop(1, 1, 0, TC), Prop(1, 1, 0, TC) >> }
+               << Prop(1, 1, 0, TC), Prop(1, 1, 0, TC) >>,
+               << Prop(9, 3, 4, [i \in 1..250 |-> TB[((i - 1) \div 25) + 1]]) >> }        \* 250 transforms, grouped by type
 SAs   == { [k |-> "SA", props |-> pl] : pl \in PropLists }
 
 AV(t, n) == [t |-> t, v |-> D(n, 60 + t)]
@@ -121,5 +122,9 @@ Chains2 == { << Rep(a), Rep(b) >> : a \in PKindSet, b \in PKindSet }
 ChainAll == [i \in 1..Len(PKinds) |-> Rep(PKinds[i])]
 ChainsLong == { ChainAll, [i \in 1..Len(PKinds) |-> Rep(PKinds[Len(PKinds) + 1 - i])],
                 << Rep("SA"), Rep("KE"), Rep("NONCE"), Rep("N"), Rep("N") >>,
-                << Rep("IDi"), Rep("CERTREQ"), Rep("AUTH"), Rep("CP"), Rep("SA"), Rep("TSi"), Rep("TSr") >> }
+                << Rep("IDi"), Rep("CERTREQ"), Rep("AUTH"), Rep("CP"), Rep("SA"), Rep("TSi"), Rep("TSr") >>,
+                \* chains longer than 1.5 KB, 4 KB and 64 KB in total (every payload still fits the 16-bit payload length)
+                << Rep("N"), [k |-> "CERT", enc |-> 4, data |-> D(1400, 1)], Rep("AUTH"), Rep("NONCE") >>,
+                << [k |-> "V", data |-> D(3000, 2)], [k |-> "KE", grp |-> 14, data |-> D(2000, 3)], Rep("SA"), Rep("EAP") >>,
+                << [k |-> "KE", grp |-> 2, data |-> D(30000, 4)], [k |-> "CERT", enc |-> 4, data |-> D(30000, 5)], [k |-> "V", data |-> D(30000, 6)], Rep("N") >> }
 =============================================================================
